@@ -1,0 +1,63 @@
+//go:build verif
+
+package table
+
+// Contracts for the gowp verifier (/verif). Comment-only file.
+
+// ---- LIMIT and ORDER BY (C12) -------------------------------------------------------------
+
+//@ props C12 C08
+//@ func (t *Table) Limit
+//@   requires t != nil && t.#lock_mu == 0 && i >= 0
+//@   modifies t.Data, t.#lock_mu
+//@   ensures[lock] t.#lock_mu == 0
+//@   ensures[first-rows] len(t.Data) == ite(old(len(t.Data)) > i, i, old(len(t.Data)))
+//@   ensures[rows-kept] forall k int :: {t.Data[k]} 0 <= k && k < len(t.Data) ==> t.Data[k] == old(t.Data[k])
+
+//@ func stringLess
+//@   heapfun
+//@   ensures[equal] result == 0 <==> trimspace(rsi) == trimspace(rsj)
+//@   ensures[less] result < 0 <==> ((!desc && trimspace(rsi) < trimspace(rsj)) || (desc && trimspace(rsj) < trimspace(rsi)))
+//@   ensures[range] result == 0 || result == 1 || result == 0 - 1
+
+// The comparator of ORDER BY. cellKey: the text two cells are compared by - the code looks at the
+// kinds both cells have, later kinds overriding earlier ones; cmpKeys: stringLess as a function.
+//@ spec macro cellKey(a *Cell, b *Cell) String = ite(a.T != nil && b.T != nil, timefmt(deref(a.T), RFC3339Nano()), ite(a.L != nil && b.L != nil, cmpText(a.L.t, a.L.v), ite(a.P != nil && b.P != nil, predText(a.P.id, a.P.anchor != nil, deref(a.P.anchor)), ite(a.N != nil && b.N != nil, nodeText(deref(a.N.t), deref(a.N.id)), ite(a.S != nil && b.S != nil, deref(a.S), "")))))
+//@ spec def cmpKeys(x String, y String, desc Bool) Int = ite(trimspace(x) == trimspace(y), 0, ite((trimspace(x) < trimspace(y)) != desc, 0 - 1, 1))
+//@ spec macro wfCell(c *Cell) Bool = c != nil && (c.N != nil ==> wfNode(c.N)) && (c.L != nil ==> wfLit(c.L))
+//@ spec macro cmpFirst(ri Row, rj Row, c SortConfig) Int = cmpKeys(cellKey(ri[c[0].Binding], rj[c[0].Binding]), cellKey(rj[c[0].Binding], ri[c[0].Binding]), c[0].Desc)
+//@ spec macro sortable(r Row, c SortConfig) Bool = forall k int :: {c[k]} 0 <= k && k < len(c) ==> has(r, c[k].Binding) && wfCell(r[c[k].Binding])
+
+//@ func rowLess
+//@   heapfun
+//@   requires c == nil || len(c) >= 1
+//@   requires sortable(ri, c) && sortable(rj, c)
+//@   decreases len(c)
+//@   ensures[nil-config] c == nil ==> !result
+//@   ensures[unfold] c != nil ==> result == (cmpFirst(ri, rj, c) < 0 || (cmpFirst(ri, rj, c) == 0 && len(c) > 1 && call("rowLess", ri, rj, c[1:])))
+
+// sortedBy: no later row is strictly before an earlier one.
+//@ spec macro sortedBy(rows []Row, c SortConfig) Bool = forall i int, j int :: {rows[i], rows[j]} 0 <= i && i < j && j < len(rows) ==> !call("rowLess", rows[j], rows[i], c)
+//@ spec macro sortableRows(rows []Row, c SortConfig) Bool = forall k int :: {rows[k]} 0 <= k && k < len(rows) ==> sortable(rows[k], c)
+
+//@ func (c bySortConfig) Len
+//@   ensures result == len(c.rows)
+
+//@ func (c bySortConfig) Less
+//@   heapfun
+//@   requires 0 <= i && i < len(c.rows) && 0 <= j && j < len(c.rows) && (c.cfg == nil || len(c.cfg) >= 1) && sortableRows(c.rows, c.cfg)
+//@   ensures result == call("rowLess", c.rows[i], c.rows[j], c.cfg)
+
+//@ func (t *Table) unsafeSort
+//@   requires t != nil && (cfg == nil || len(cfg) >= 1) && sortableRows(t.Data, cfg)
+//@   modifies t.Data
+//@   ensures[permutation] perm(old(t.Data), t.Data)
+//@   ensures[sorted] cfg != nil ==> sortedBy(t.Data, cfg)
+//@   ensures[nil-config] cfg == nil ==> t.Data == old(t.Data)
+
+//@ func (t *Table) Sort
+//@   requires t != nil && t.#lock_mu == 0 && (cfg == nil || len(cfg) >= 1) && sortableRows(t.Data, cfg)
+//@   modifies t.Data, t.#lock_mu
+//@   ensures[lock] t.#lock_mu == 0
+//@   ensures[permutation] perm(old(t.Data), t.Data)
+//@   ensures[sorted] cfg != nil ==> sortedBy(t.Data, cfg)
